@@ -12,7 +12,20 @@ Stages (after build + audit of coq/Properties/C03.v, done by harness.main):
      protoc_wf and names_ok are evaluated in Coq on every descriptor set (the theorem's premises);
   C  the repository's tests/inputs corpus through the same pipeline;
   D  witness streams: one schema per open known-finding class, and the regression inputs of proposed fixes;
-  E  bundled descriptor libraries against google.protobuf's own descriptors (the oracle of C03_bundled_agree).
+  E  bundled descriptor libraries against google.protobuf's own descriptors (the oracle of C03_bundled_agree);
+  F  the bridge to the runtime codec model (C03_generated_schema_ok / C03_generated_roundtrip): for every run of B-D
+     without a known-finding class
+       (a) the runtime schema DERIVED FROM THE REAL generated classes (dataclass metadata + resolved hints, numbered the
+           way harness/msggen.py numbers a schema) is compared with the model's schema_of_table, evaluated in Coq on
+           reflect (compile D) and on class_table_of D for the descriptor set protoc printed;
+       (b) bridge_ok D, table_ok, c01_schema_ok and, class by class, wf_class are evaluated in Coq and compared with an
+           independent Python reading of the descriptor set (the theorem's premise and conclusion, instance by instance);
+       (c) msggen schemas (the systematic matrix + random ones, the C01 generator) are written out as .proto text, sent
+           through protoc and the real plugin, and schema_of_table of the resulting descriptor set must be the schema
+           literal msggen prints for them (premises true, conclusion true: non-vacuity on protoc's real output);
+       (d) oracle on the implementation: every generated message class is instantiated with one non-default value per
+           field and must survive parse(bytes(m)) == m with identical re-encoding (the conclusion of C03_generated_roundtrip
+           on the real classes).
 """
 import json
 import os
@@ -26,7 +39,9 @@ from .. import plugin_util as pu
 from .. import c03_protogen as G
 from ..lib import cz, cb, cl, ce, coq_bytes, coq_z, CN, cbool
 
-IMPORTS = "Spec.Descriptor gen.C03Tables Model.Plugin Proofs.PluginP Proofs.PluginWitP"
+# Model.Object after Spec.Descriptor: in the case files the unqualified PyInt ... are the runtime model's (msggen literals)
+IMPORTS = ("Spec.Descriptor gen.C03Tables Model.Plugin Proofs.PluginP Proofs.PluginWitP "
+           "Model.Types Model.Object Model.WellFormed Model.C01Def Model.C03Bridge Proofs.C03BridgeWit")
 LEVEL = "translation_validation"
 
 TRUSTED = [
@@ -42,18 +57,27 @@ TRUSTED = [
     "ruff is absent from the sandbox (pass-through shim): import sorting / unused-import removal / formatting are not exercised",
     "oracles: grpc_tools.protoc (descriptor sets), google.protobuf DescriptorPool, CPython dataclasses/typing",
     "Python side: generator, descriptor -> Gallina printer, canonicalisation of classes to (name, number, proto type, map types, group, wraps, optional, hint)",
+    "bridge (stage F): Model/C03Bridge.v schema_of_table is a DEFINITION of how a class table is read as a runtime schema; it is tied to the code by "
+    "comparing it with the schema the harness derives from the real generated classes (metadata + hints resolved by class identity) and with the "
+    "literal harness/msggen.py prints for the same schema; bridge_ok is compared with an independent Python reading of the descriptor set; "
+    "the runtime model itself (Model/Object.v ...) is tied to the code by the checks of C01 C02 C04 ..., not here",
 ]
 ASSUMPTIONS = [
     "str is modelled as its UTF-8 bytes; lower()/upper() are ASCII-only in the model (protoc identifiers are ASCII; checked by protoc_wf)",
     "class identity of a resolved type hint is canonicalised to (proto package, class name) by object identity inside the importing subprocess",
     "INCLUDE_GOOGLE, pydantic_dataclasses and typing.* plugin options are not modelled here (C18)",
     "a user package whose first segment is `betterproto` (absolute import path) is outside the generator",
+    "bridge theorems: the runtime model has classes only for Timestamp, Duration and the nine wrappers, and its wf_schema has no wrapped list "
+    "elements / oneof members / proto3-optional wrappers: bridge_ok excludes these shapes (betterproto handles them, the C01..C10 theorems do not "
+    "speak about them); map values of a wrapper type are excluded because the real classes fail on them (K34)",
+    "the round-trip smoke of stage F (d) uses ONE sample value per class; the statement for all values is C03_generated_roundtrip (over the model)",
 ]
 RULE = ("schemas: systematic pass (every scalar kind x {singular, repeated, optional, oneof member, map key, map value}, all "
         "well-known types, mutual recursion, keyword/builtin field names, comment placements) then random multi-file schemas "
         "(1-3 files, related packages, nesting depth <= 3 quick / 5 thorough) + tests/inputs corpus (upstream xfails skipped) + "
         "one witness per known-finding class; non-trivial = a message class with at least one field or an enum with at least "
-        "two members; distinct = distinct canonical class shape (field kinds, cardinalities, hints)")
+        "two members; distinct = distinct canonical class shape (field kinds, cardinalities, hints); stage F: every run above without a "
+        "known-finding class + msggen schemas (matrix + 5 random quick / 40 thorough) written as .proto and sent through protoc and the plugin")
 
 
 # ======================================================================================================
@@ -368,6 +392,45 @@ def canon(h):
     if o is dict and len(a) == 2: return ["dict", canon(a[0]), canon(a[1])]
     if isinstance(h, type) and id(h) in ident: return ["ref", ident[id(h)][0], ident[id(h)][1]]
     return ["other", repr(h)[:120]]
+UTC = datetime.timezone.utc
+def sample_value(h, depth):
+    """one non-default value of the resolved hint h"""
+    if h is bool: return True
+    if h is int: return 7
+    if h is float: return 1.5
+    if h is str: return "x\u00e9"
+    if h is bytes: return b"\x00y"
+    if h is datetime.datetime: return datetime.datetime(2020, 1, 2, 3, 4, 5, 6000, tzinfo=UTC)
+    if h is datetime.timedelta: return datetime.timedelta(days=1, seconds=2, microseconds=3000)
+    o = typing.get_origin(h); a = typing.get_args(h)
+    if o is typing.Union and len(a) == 2 and NoneType in a:
+        return sample_value(a[0] if a[1] is NoneType else a[1], depth)
+    if o is list and len(a) == 1: return [sample_value(a[0], depth), sample_value(a[0], depth)]
+    if o is dict and len(a) == 2: return {sample_value(a[0], depth): sample_value(a[1], depth)}
+    if isinstance(h, type) and issubclass(h, betterproto.Enum):
+        mem = list(h.__members__.values())
+        nz = [x for x in mem if int(x.value) != 0]
+        return (nz or mem)[0]
+    if isinstance(h, type) and issubclass(h, betterproto.Message):
+        if depth <= 0:
+            return h()
+        return h(**sample_kwargs(h, h._type_hints(), depth - 1))
+    raise TypeError(f"no sample value for hint {h!r}")
+def wrapped_map_value(h):
+    a = typing.get_args(h)
+    return typing.get_origin(h) is dict and len(a) == 2 and typing.get_origin(a[1]) is typing.Union
+def sample_kwargs(c, hints, depth, top=False):
+    kw, groups = {}, set()
+    for f in dataclasses.fields(c):
+        meta = f.metadata.get("betterproto")
+        if meta.group is not None:
+            if meta.group in groups:
+                continue
+            groups.add(meta.group)
+        if wrapped_map_value(hints[f.name]) and not top:
+            continue        # known finding K34 is exhibited by the class that owns the field, not by every class that refers to it
+        kw[f.name] = sample_value(hints[f.name], depth)
+    return kw
 for pkg, m in mods.items():
     classes = []
     for n, c in list(vars(m).items()):
@@ -397,6 +460,19 @@ for pkg, m in mods.items():
                 ent["smoke"] = "ok"
             except BaseException as e:
                 ent["smoke"] = f"{type(e).__name__}: {e}"[:300]
+            if ent["smoke"] == "ok" and hints is not None:
+                try:
+                    kw = sample_kwargs(c, hints, 2, top=True)
+                    ent["rt_fields"] = sorted(kw)
+                    v1 = c(**kw); b = bytes(v1); v2 = c().parse(b)
+                    if not (v2 == v1):
+                        ent["rt"] = "parse(bytes(m)) != m for m = " + repr(v1)[:300]
+                    elif bytes(v2) != b:
+                        ent["rt"] = "bytes(parse(bytes(m))) != bytes(m) for m = " + repr(v1)[:300]
+                    else:
+                        ent["rt"] = "ok"
+                except BaseException as e:
+                    ent["rt"] = f"{type(e).__name__}: {e}"[:300] + " | " + traceback.format_exc()[-400:]
             classes.append(ent)
         elif issubclass(c, betterproto.Enum):
             ent = {"name": n, "kind": "enum", "doc": c.__doc__}
@@ -711,7 +787,7 @@ def oracle_compare(run, expected):
 # ======================================================================================================
 # model / spec evaluation of one run inside Coq
 # ======================================================================================================
-def coq_pairs_for_run(run, conj_expected, k):
+def coq_pairs_for_run(run, conj_expected, k, bridge=False):
     """(preamble, pairs, descr) for lib.coq_compare; definitions are suffixed with k so that many runs share a file"""
     fds = run.fds
     fields, classes, members = name_tables(fds)
@@ -746,7 +822,262 @@ def coq_pairs_for_run(run, conj_expected, k):
     dirs = g_list(g_list(s(x) for x in d) for d in (run.dirs or []))
     pairs.append((f"cbool (same_dirs (output_dirs D{k}) {dirs})", cbool(True)))
     descr.append(("output file set", run.label))
+    run.bridge = None
+    if bridge:
+        bpre, bpairs, bdescr, whole, per_class = bridge_pairs(run, k)
+        pre += bpre
+        pairs += bpairs
+        descr += bdescr
+        run.bridge = (whole, per_class)
     return pre, pairs, descr
+
+
+# ======================================================================================================
+# stage F: the bridge to the runtime codec model
+# ======================================================================================================
+NBUILTIN = 11
+PT_TAG = {"enum": 0, "bool": 1, "int32": 2, "int64": 3, "uint32": 4, "uint64": 5, "sint32": 6, "sint64": 7, "float": 8,
+          "double": 9, "fixed32": 10, "sfixed32": 11, "fixed64": 12, "sfixed64": 13, "string": 14, "bytes": 15,
+          "message": 16, "map": 17}
+PYTY_TAG = {"int": 0, "float": 1, "bool": 2, "str": 3, "bytes": 4, "datetime": 7, "timedelta": 8}
+
+
+def py_schema_cv(run):
+    """the runtime schema of the REAL generated classes of one run, as the cv literal of Model/C03Bridge.v cv_schema:
+    message classes in the order of the schema get indices 11.., map fields get Entry classes after them, enums are
+    numbered in the order of the schema, references are resolved through the identity of the class objects (done in the subprocess:
+    ["ref", package, class name]), groups are numbered per class by first appearance. Returns None when a module of the
+    run did not import or does not have exactly one class per message / enum (other stages report that)."""
+    N, _ = naming()
+    pkgs = out_packages(run.fds)
+    rows = []
+    for p in pkgs:
+        mod = run.reflect["modules"].get(p)
+        if mod is None or "import_error" in mod:
+            return None
+        by_name = {}
+        for c in mod["classes"]:
+            by_name.setdefault(c["name"], c)
+        # the order in which a module DEFINES its classes is not part of the property: the classes are taken in the
+        # order of the schema (enums of the package's files, then its messages, declaration preorder), by name
+        en, ms = [], []
+        for f in run.fds.file:
+            if f.package != p:
+                continue
+            items = walk_file(f)
+            en += [path for kind, path, obj in items if kind == "enum" and len(path) == 1]
+            en += [path for kind, path, obj in items if kind == "enum" and len(path) > 1]
+            ms += [path for kind, path, obj in items if kind == "msg" and not obj.options.map_entry]
+        for path in en + ms:
+            c = by_name.get(N.pythonize_class_name(".".join(path)))
+            if c is None:
+                return None
+            rows.append((p, c))
+        if len(rows) - sum(1 for q, _ in rows if q != p) != len(mod["classes"]):
+            return None
+    msgs = [(p, c) for p, c in rows if c["kind"] == "message"]
+    enums = [(p, c) for p, c in rows if c["kind"] == "enum"]
+    midx, eidx = {}, {}
+    for i, (p, c) in enumerate(msgs):
+        midx.setdefault((p, c["name"]), NBUILTIN + i)
+    for i, (p, c) in enumerate(enums):
+        eidx.setdefault((p, c["name"]), i)
+    # a name denotes the FIRST class of that name in its module, whatever its kind
+    first_kind = {}
+    for p, c in rows:
+        first_kind.setdefault((p, c["name"]), c["kind"])
+    BAD = cl([cz(6), cz(0)])
+
+    def pyty(h):
+        if h[0] in PYTY_TAG:
+            return cl([cz(PYTY_TAG[h[0]])])
+        if h[0] == "ref":
+            k = (h[1], h[2])
+            if first_kind.get(k) == "message":
+                return cl([cz(6), cz(midx[k])])
+            if first_kind.get(k) == "enum":
+                return cl([cz(5), cz(eidx[k])])
+        return BAD
+
+    def hint(h):
+        if h[0] == "list":
+            return cl([cz(2), pyty(h[1])])
+        if h[0] == "dict":
+            return cl([cz(3), pyty(h[1]), pyty(h[2])])
+        if h[0] == "optional":
+            return cl([cz(1), pyty(h[1])])
+        return cl([cz(0), pyty(h)])
+
+    def pt(x):
+        return cz(PT_TAG.get(str(x), 17))
+
+    classes, entries = [], []
+    nentry = NBUILTIN + len(msgs)
+    for p, c in msgs:
+        groups = []
+        for f in c["fields"]:
+            if f["group"] is not None and f["group"] not in groups:
+                groups.append(f["group"])
+        fl = []
+        for f in c["fields"]:
+            is_map = bool(f["map_types"])
+            fl.append(cl([cb(f["name"].encode()), cz(f["number"]), pt(f["proto_type"]),
+                          cl([pt(f["map_types"][0]), pt(f["map_types"][1])]) if is_map else CN,
+                          CN if f["group"] is None else cz(groups.index(f["group"])),
+                          CN if f["wraps"] is None else pt(f["wraps"]),
+                          cbool(f["optional"]), hint(f["hint"]), cz(nentry if is_map else 0)]))
+            if is_map:
+                nentry += 1
+                h = f["hint"]
+                k, v = (pyty(h[1]), pyty(h[2])) if h[0] == "dict" else (BAD, BAD)
+                entries.append(cl([cl([
+                    cl([cb(b"key"), cz(1), pt(f["map_types"][0]), CN, CN, CN, cbool(False), cl([cz(0), k]), cz(0)]),
+                    cl([cb(b"value"), cz(2), pt(f["map_types"][1]), CN, CN, CN, cbool(False), cl([cz(0), v]), cz(0)])]), cz(0)]))
+        classes.append(cl([cl(fl), cz(len(groups))]))
+    en = [cl([cl([cb(n.encode()), cz(v)]) for n, v in c["members"]]) for p, c in enums]
+    return cl([cl(classes + entries), cl(en)])
+
+
+WKT_WRAPPER_NAMES = {".google.protobuf." + w for w in WRAPPER_KIND}
+WKT_NAMES = WKT_WRAPPER_NAMES | {".google.protobuf.Timestamp", ".google.protobuf.Duration"}
+SCALAR_TYPES = {1, 2, 3, 4, 5, 6, 7, 8, 9, 12, 13, 15, 16, 17, 18}
+KEY_TYPES = {3, 4, 5, 6, 7, 8, 9, 13, 15, 16, 17, 18}
+
+
+def py_bridge(fds):
+    """independent reading of Model/C03Bridge.v bridge_ok on a FileDescriptorSet: (whole set, [per message class of the
+    generated packages in the order of the class table])"""
+    syms = {}
+    for f in fds.file:
+        items = walk_file(f)
+        for kind, path, obj in [x for x in items if x[0] == "msg"] + [x for x in items if x[0] == "enum"]:
+            syms.setdefault("." + (f.package + "." if f.package else "") + ".".join(path), (kind, f.package, obj))
+
+    def vref_ok(x):
+        if x.type in SCALAR_TYPES:
+            return True
+        if x.type_name in WKT_NAMES:
+            return x.type == 11
+        sym = syms.get(x.type_name)
+        if sym is None:
+            return False
+        kind, pkg, obj = sym
+        if kind == "msg":
+            return pkg != "google.protobuf" and not obj.options.map_entry
+        return pkg != "google.protobuf"
+
+    def real_oneof(x):
+        return x.HasField("oneof_index") and not x.proto3_optional
+
+    def msg_ok(pkg, path, m):
+        nums = [x.number for x in m.field]
+        ok = len(set(nums)) == len(nums)
+        full = "." + (pkg + "." if pkg else "") + ".".join(path)
+        for x in m.field:
+            if not (1 <= x.number < (1 << 29)):
+                ok = False
+            entry = None
+            if x.type == 11:
+                for n in m.nested_type:
+                    if n.options.map_entry and full + "." + n.name == x.type_name:
+                        entry = n
+                        break
+            if entry is not None:
+                k = next((y for y in entry.field if y.number == 1), None)
+                v = next((y for y in entry.field if y.number == 2), None)
+                if k is None or v is None or k.type not in KEY_TYPES or not vref_ok(v) or v.type_name in WKT_WRAPPER_NAMES:
+                    ok = False
+            else:
+                rep = x.label == 3
+                if not vref_ok(x):
+                    ok = False
+                if x.type_name in WKT_WRAPPER_NAMES and (rep or x.proto3_optional or real_oneof(x)):
+                    ok = False
+                if rep and (x.proto3_optional or real_oneof(x)):
+                    ok = False
+        return ok
+
+    per_class = []
+    for p in out_packages(fds):
+        for f in fds.file:
+            if f.package != p:
+                continue
+            for kind, path, obj in walk_file(f):
+                if kind == "msg" and not obj.options.map_entry:
+                    per_class.append(msg_ok(p, path, obj))
+    return all(per_class), per_class
+
+
+def bridge_pairs(run, k):
+    """(preamble, pairs, descr) of stage F for one run whose descriptor D{k} / tables M{k}, S{k} are already defined"""
+    pre = (f"Definition T{k} : class_table := Eval vm_compute in match S{k} with Some t => t | None => [] end.\n"
+           f"Definition SC{k} : schema := Eval vm_compute in schema_of_table T{k}.\n")
+    pairs, descr = [], []
+    real = py_schema_cv(run)
+    if real is not None:
+        pairs.append((f"cv_res_schema M{k}", real))
+        descr.append(("bridge: schema_of_table (reflect (compile D)) vs the runtime schema of the real generated classes", run.label))
+        pairs.append((f"cv_opt_schema S{k}", real))
+        descr.append(("bridge: schema_of_table (class_table_of D) vs the runtime schema of the real generated classes", run.label))
+    whole, per_class = py_bridge(run.fds)
+    pairs.append((f"cbool (bridge_ok D{k})", cbool(whole)))
+    descr.append(("bridge: bridge_ok D vs the harness' reading of the descriptor set", run.label))
+    # the theorem, instance by instance (premises protoc_wf / names_ok are compared above)
+    pairs.append((f"cbool (implb (bridge_ok D{k}) (table_ok T{k} && c01_schema_ok SC{k}))", cbool(True)))
+    descr.append(("bridge: bridge_ok D -> table_ok /\\ c01_schema_ok (instance of C03_generated_schema_ok)", run.label))
+    bl = "[" + "; ".join("true" if b else "false" for b in per_class) + "]"
+    pairs.append((f"cbool (forallb (fun bc => implb (fst bc) (wf_class SC{k} (snd bc))) "
+                  f"(combine {bl} (skipn NB (classes SC{k}))))", cbool(True)))
+    descr.append(("bridge: msg_bridge_ok of a message -> wf_class of its generated class", run.label))
+    # exactness of the side condition (soft: a disagreement is reported as a note, it is no defect of the code)
+    pairs.append((f"cbool (c01_schema_ok SC{k})", cbool(whole)))
+    descr.append(("bridge-exactness: c01_schema_ok (schema_of_table (class_table_of D)) = bridge_ok D", run.label))
+    pairs.append((f"CL (map (fun c => cbool (wf_class SC{k} c)) (firstn {len(per_class)} (skipn NB (classes SC{k}))))",
+                  cl([cbool(b) for b in per_class])))
+    descr.append(("bridge-exactness: wf_class of every generated message class = msg_bridge_ok of its message", run.label))
+    lit = getattr(run, "msggen_literal", None)
+    if lit is not None:
+        pairs.append((f"cv_schema SC{k}", f"cv_schema {lit}"))
+        descr.append(("bridge: schema_of_table (class_table_of D) vs the schema literal msggen prints for the source schema", run.label))
+        pairs.append((f"cbool (c01_schema_ok SC{k})", cbool(True)))
+        descr.append(("bridge: the msggen schema sent through protoc satisfies c01_schema_ok", run.label))
+    run.bridge_real = real is not None
+    return pre, pairs, descr, whole, per_class
+
+
+def msggen_runs(ctx, n_random):
+    """msggen schemas (C01's generator: the shapes the runtime model covers) as .proto text, one protoc run each"""
+    from .. import msggen
+    from . import c01 as C01
+
+    def normalised(base):
+        # fields in .proto order (members of a oneof contiguous), groups renumbered by first appearance, as many groups as are used
+        classes = []
+        for c in base.classes:
+            fs = C01.proto_order(c)
+            order = []
+            for f in fs:
+                if f.group is not None and f.group not in order:
+                    order.append(f.group)
+            classes.append(msggen.Cls(c.name, [msggen.Field(f.name, f.number, f.card, f.elem, key=f.key,
+                                                            group=None if f.group is None else order.index(f.group))
+                                               for f in fs], len(order)))
+        return msggen.Schema(classes, base.enums)
+
+    runs = []
+    bases = [msggen.matrix_schema()] + [msggen.random_schema(ctx.rng) for _ in range(n_random)]
+    for i, b0 in enumerate(bases):
+        sc = normalised(b0)
+        b0.dispose()
+        pkg = f"vb{i}"
+        # the literal: enum member names as the plugin leaves them (proto_text prefixes them with E<i>_)
+        r = Run(f"msggen-{i}", {f"vb{i}/schema.proto": C01.proto_text(sc, pkg)})
+        r.msggen_literal = sc.coq()
+        r.msggen_spec = msggen.schema_spec(sc)
+        sc.dispose()
+        runs.append(r)
+    return runs
+
 
 
 # ======================================================================================================
@@ -974,6 +1305,24 @@ def process_run(ctx, run, expect_clean, corr=True, schemas=None):
             ctx.fail("oracle", "generated package does not implement the schema: " + diffs[0][:300], cls=cls,
                      input={"label": run.label, "files": run.files}, all_differences=diffs[:20],
                      hazard_classes=sorted(hz), plugin_output=run.out[-300:])
+    # stage F (d): the conclusion of C03_generated_roundtrip on the real classes, one sample value per class
+    for pkg, mod in run.reflect["modules"].items():
+        for c in mod.get("classes", []):
+            if c["kind"] != "message" or "rt" not in c:
+                continue
+            ctx.count("roundtrip_smoke_classes")
+            if c["rt"] == "ok":
+                if c.get("rt_fields"):
+                    ctx.count("roundtrip_smoke_ok_nonempty")
+                continue
+            # a map whose VALUE type is a wrapper: known finding K34 (the hint says Optional[X], the codec wants a message)
+            mwv = any(f["map_types"] and f["hint"][0] == "dict" and f["hint"][2][0] == "optional" for f in c["fields"])
+            ctx.count("roundtrip_smoke_failed")
+            ctx.count("roundtrip_smoke_failed:" + str("map_wrapper_value" if mwv else cls))
+            ctx.fail("oracle", f"a generated class does not round-trip a value: {pkg}.{c['name']}: {c['rt'][:200]}",
+                     cls="map_wrapper_value" if mwv else cls,
+                     input={"label": run.label, "files": run.files, "class": f"{pkg}.{c['name']}", "fields_set": c.get("rt_fields")},
+                     observed=c["rt"][:900], hazard_classes=sorted(hz))
     if corr:
         jobs.append((run, conj))
     return jobs
@@ -1002,7 +1351,9 @@ def run_coq_jobs(ctx, jobs):
         pre_all, pairs_all, descr_all, owner = [], [], [], []
         for k in groups[gi]:
             run, conj = jobs[k]
-            pre, pairs, descr = coq_pairs_for_run(run, conj, k)
+            # stage F only where the premises of the bridge theorems can hold: no known-finding class, names_ok true
+            clean = not run.tags and not hazards(run.fds)[1] and all(conj.values())
+            pre, pairs, descr = coq_pairs_for_run(run, conj, k, bridge=clean)
             pre_all.append(pre)
             pairs_all += pairs
             descr_all += descr
@@ -1035,6 +1386,16 @@ def run_coq_jobs(ctx, jobs):
             py_level = bool((set(run.tags) | hz) & PY_LEVEL)
             for i in idxs[:6]:
                 what = descr[i][0]
+                if what.startswith("bridge-exactness"):
+                    ctx.count("bridge_exactness_disagreements")
+                    ctx.notes.append(f"{run.label}: {what}: the side condition is not exact here (model {pairs[i][0][:80]} != {pairs[i][1][:80]})")
+                    continue
+                if what.startswith("bridge:"):
+                    ctx.fail("corr", f"disagreement: {what}", input={"label": run.label, "case": list(descr[i]), "files": run.files},
+                             expected_model=pairs[i][0][:300], observed_impl=pairs[i][1][:3000],
+                             theorem_or_correspondence="T2 Model/C03Bridge.v schema_of_table / bridge_ok <-> real generated classes "
+                                                       "and descriptor (C03_generated_schema_ok)")
+                    continue
                 spec_side = what.startswith("specification")
                 # neither the specification nor names_ok is expected to describe a package of a known-finding class
                 if known and (spec_side or what.startswith("names_ok") or what.startswith("model: output")):
@@ -1124,6 +1485,7 @@ def run(ctx):
             files.update(sc.files)
         batches.append(Run(f"batch{i // batch_size}", files))
     corpus, xfails, ncorpus = corpus_runs(ctx)
+    bridge_runs = msggen_runs(ctx, 5 if not ctx.thorough else 40)      # stage F (c)
     wit = [Run(w.label, w.files, tags=w.tags) for w in G.witnesses()]
     reg = [Run(w.label, w.files, tags=w.tags) for w in G.regressions()]
     # saved failing inputs run first
@@ -1136,7 +1498,7 @@ def run(ctx):
                 saved.append(Run("saved-" + fn[:-5], o["files"], tags=o.get("tags", [])))
             except Exception as e:  # noqa
                 ctx.notes.append(f"corpus file {fn} unreadable: {e!r}")
-    all_runs = saved + batches + corpus + wit + reg
+    all_runs = saved + batches + corpus + wit + reg + bridge_runs
     with ThreadPoolExecutor(max_workers=lib.JOBS) as ex:
         list(ex.map(lambda r: safe_protoc(ctx, r), all_runs))
     # a main-stream batch in which protoc rejected one file or the plugin crashed: retry schema by schema
@@ -1165,12 +1527,31 @@ def run(ctx):
     ctx.cov["corpus_xfail_skipped"] = xfails
     for r in wit + reg:
         jobs += process_run(ctx, r, expect_clean=False, corr=(r.rc == 0 and r.reflect is not None))
+    for r in bridge_runs:
+        if r.rc == "protoc-rejected" or r.rc != 0 or r.reflect is None:
+            ctx.fail("corr", "a msggen schema (the shapes the runtime model covers) does not pass protoc + plugin + import",
+                     input={"label": r.label, "files": r.files, "schema": r.msggen_spec}, observed=(r.out or r.error or "")[-900:],
+                     no_input=True, theorem_or_correspondence="stage F (c): msggen schema -> .proto -> plugin")
+            continue
+        jobs += process_run(ctx, r, expect_clean=True)
+    ctx.count("bridge_msggen_schemas", len(bridge_runs))
     ctx.count("witness_schemas", len(wit))
     ctx.count("regression_schemas", len(reg))
     t4 = time.time()
     if coq_ok:
         run_coq_jobs(ctx, jobs)
     t5 = time.time()
+    for r, _ in jobs:
+        b = getattr(r, "bridge", None)
+        if b is not None:
+            ctx.count("bridge_runs_compared")
+            if getattr(r, "bridge_real", False):
+                ctx.count("bridge_real_class_schemas_compared")
+            if getattr(r, "msggen_literal", None) is not None:
+                ctx.count("bridge_msggen_literals_compared")
+            ctx.count("bridge_ok_runs" if b[0] else "bridge_not_ok_runs")
+            ctx.count("bridge_classes", len(b[1]))
+            ctx.count("bridge_ok_classes", sum(1 for x in b[1] if x))
     ctx.cov["stage_seconds"] = {"bundled": round(t1 - t0, 1), "functions": round(t2 - t1, 1), "protoc+plugin+import": round(t3 - t2, 1),
                                 "oracle": round(t4 - t3, 1), "coq model+spec": round(t5 - t4, 1)}
     # samples
@@ -1252,7 +1633,9 @@ def finish(ctx):
         ctx, LEVEL,
         "Coq theorems over a Gallina mirror of the plugin's descriptor -> class-table function and an independent specification of "
         "what a descriptor means, + translation validation: every generated schema goes through protoc and the real plugin, the "
-        "imported package is compared with the model (vm_compute), the specification and google.protobuf's reading of the descriptor",
+        "imported package is compared with the model (vm_compute), the specification and google.protobuf's reading of the descriptor; "
+        "bridge to the runtime codec model: proved c01_schema_ok of schema_of_table(class table) under bridge_ok, schema_of_table compared with the "
+        "runtime schema of the real classes and with msggen's literal, one sample value per generated class round-tripped for real",
         ASSUMPTIONS, TRUSTED, RULE,
         extra_cov={"exhaustive": False,
                    "programs": ctx.dist.get("programs", 0),
@@ -1276,6 +1659,11 @@ def replay(ctx, obj):
     if r.fds is not None and r.reflect is not None:
         for d in oracle_compare(r, oracle_expected(r.fds)):
             print("DIFF:", d)
+        for pkg, mod in r.reflect["modules"].items():
+            for c in mod.get("classes", []):
+                if c["kind"] == "message" and c.get("rt", "ok") != "ok":
+                    print(f"ROUND-TRIP: {pkg}.{c['name']} (fields set: {c.get('rt_fields')}): {c['rt'][:600]}")
+        print("bridge_ok (harness reading):", py_bridge(r.fds))
         print("hazards:", hazards(r.fds))
     ctx.cleanup()
     return 0
